@@ -215,7 +215,8 @@ def judge(t):
     # ground truth: a module that hangs its objects below a node it imports from a module which (in the release the
     # sources hold now) does not define that node cannot be generated - whatever the generator object remembers from
     # earlier calls
-    if not scn.get('alias') and not scn.get('files') and not scn.get('inject') and not scn.get('template'):
+    if not scn.get('alias') and not scn.get('files') and not scn.get('inject') and not scn.get('template') and scn.get('codegen', 'json') != 'null':
+        # (the null generator of --destination-format=null resolves nothing and therefore cannot fail)
         specs_ = scn.get('modules', {})
         plain = lambda n_: all('variants' not in h_ and 'text' not in h_ for s_ in scn.get('sources', ()) for k_, h_ in s_.get('holds', {}).items() if k_ == n_)
         parsed_now = set(m for a_ in cs.attempts_of(t) if a_['ok'] for (m, _x, _y) in a_['mods'])
